@@ -199,6 +199,12 @@ def _base_states(case, sc):
                     if not thorough and (ia + letter) % 2 and ia > 1:
                         continue
                     yield {"t": t, "state": letter, "angle": ang}, t, F.rev_state(sc, letter, ang, seed, t)
+            # states that VIOLATE the joint (the property quantifies over all states): the second body tilted about
+            # each in-plane axis of the joint frame
+            axis = case.get("axis", 0)
+            for ib, tax in enumerate(((axis + 1) % 3, (axis + 2) % 3)):
+                ang = F.REV_ANGLES[1 + ib]
+                yield {"t": t, "state": 1, "angle": ang, "offmanifold": True, "tilt_axis": tax}, t, F.rev_state(sc, 1, ang, seed, t, tilt=(tax, 0.35 - 0.6 * ib))
 
 
 def _u_letters(s, seed):
@@ -225,7 +231,7 @@ def check_law(case):
     nstates = 0
     for lab, t, parts in _base_states(case, sc):
         q = sc.q_from(parts, internal=(0.15 if law == "maxwell" else None))
-        if case["sub"] == "rev":
+        if case["sub"] == "rev" and not lab.get("offmanifold"):
             check_manifold(sc, t, q)
         sc.reset()
         lib("System.E_pot", s.E_pot, t, q)  # primes the revolute angle tracker at the base state
@@ -258,7 +264,8 @@ def check_act(case):
     nstates = 0
     for lab, t, parts in _base_states(case, sc):
         q = sc.q_from(parts, internal=(0.35 if act == "pid" else None))
-        check_manifold(sc, t, q)
+        if not lab.get("offmanifold"):
+            check_manifold(sc, t, q)
         sc.reset()
         nstates += 1
         for uname, u in _u_letters(s, seed):
